@@ -219,7 +219,27 @@ def main(tier):
             check.inconclusive.append(f'{ob.name}: bevy replay unavailable ({e})')
 
     # ------------------------------------------------------------------ S4: two integrated frames, both system orders
-    for order, cmap in itertools.product((('chain', 'select', 'animate'), ('select', 'chain', 'animate')), ({}, {1: 2})):
+    # the relative orders explored are the ones the REGISTERED schedule allows (bevy_schedule.py executes the real MIR of
+    # AnimationPlugin::build and register_animation_key over a model of the App builder API)
+    import bevy_schedule as bs
+    recs = []
+    for fnname in ('build', 'register_animation_key'):
+        r_, calls_, problems_, sm = bs.read_schedule(prog, enums, fnname)
+        recs += r_; check.note_machine(sm)
+        for p_ in problems_: check.inconclusive.append('schedule: ' + p_)
+    orders, constraints = bs.allowed_orders(recs)
+    check.info['schedule'] = dict(constraints=constraints, orders=['/'.join(o) for o in orders],
+                                  registrations=[dict(label=l, systems=c.systems, before=c.before, after=c.after, conditions=[bs.text_of(x)[:80] for x in c.conditions]) for l, c in recs])
+    class R_: pass
+    for sysname in ('select_animation', 'chain_animations'):
+        mine = [(l, c) for l, c in recs if sysname in c.systems]
+        ob = Obligation(f'C19.schedule.{sysname}-registered-once-in-Update-unconditionally', [], [], words=f'register_animation_key registers {sysname}::<K, T> exactly once, in Update, without run conditions')
+        rr = R_(); rr.secs = 0.0; rr.solver = 'symbolic-execution'; rr.detail = ''; rr.model = {}
+        rr.status = 'unsat' if (len(mine) == 1 and mine[0][0].replace(' ', '').endswith('bevy::app::Update') and not mine[0][1].conditions) else 'sat'
+        ob.result = rr; check.obligations.append(ob)
+    if not orders:
+        check.inconclusive.append(f'schedule: the registered ordering constraints {constraints} admit no order'); orders = [('chain', 'select', 'animate')]
+    for order, cmap in itertools.product(orders, ({}, {1: 2})):
         for new_key in (1, 2, 3):
             world = World(); ecs = Ecs(prog, enums, world, tls)
             m = Machine(prog, enums, overrides=ecs.overrides()); m.duration_mode = 'uf'
